@@ -44,7 +44,7 @@ PROPS = {
         "level": "other",
         "lean": ["PasfmtModel.Props.C03"],
         "streams": [
-            {"stream": "fmt", "families": "seeds_sample,grammar,layout,regions,mlsfam,marked,boundary,boundary,mlscancel", "quick": 3200, "thorough": 50000,
+            {"stream": "fmt", "families": "seeds_sample,grammar,layout,regions,mlsfam,marked,boundary,boundary,mlscancel,condinline", "quick": 3200, "thorough": 50000,
              "binding": ["prec", "out", "*"], "args": {"oracles": "c03"}},
         ],
         "oracle_prefixes": ["c03", "glue"],
@@ -162,7 +162,7 @@ PROPS = {
         "level": "proof",
         "lean": ["PasfmtModel.Props.C08"],
         "streams": [
-            {"stream": "fmt", "families": ALL_FAMILIES + ",pairs", "quick": 3500, "thorough": 40000,
+            {"stream": "fmt", "families": ALL_FAMILIES + ",pairs,condinline", "quick": 3500, "thorough": 40000,
              "binding": ["pre", "out", "*"], "args": {"oracles": "c08"}},
         ],
         "oracle_prefixes": ["c08", "glue"],
